@@ -423,7 +423,7 @@ def run(ctx):
                              "detail": f"the model's own consistency algorithm changes the solution set: {len(sets[0])} vs {len(sets[1])} under plain bound consistency"})
     # random sub-boxes of the Golomb model (some first marks given, the length capped — the states minimisation itself creates):
     # the model's own consistency algorithm must enumerate exactly the rulers plain bound consistency enumerates (D17)
-    for _ in range(4 if not thorough else 60):
+    for _ in range(4 if not thorough else 16):
         marks = rng.choice([5, 6, 6])
         sbf = rng.random() < 0.5
         capl = rng.randint({5: 11, 6: 17}[marks], {5: 28, 6: 30}[marks])
@@ -453,6 +453,28 @@ def run(ctx):
             lost = [r_ for r_ in sets[1] if r_ not in sets[0]][:3]
             viol.append({"kind": "example", "model": "golomb", "args": [marks, int(sbf)], "given_marks": pre, "length_cap": capl,
                          "detail": f"the model's own consistency algorithm enumerates {len(sets[0])} rulers, plain bound consistency {len(sets[1])}; lost: {lost}; invalid: {bad_r[:2]}"})
+    # whole runs of the Golomb example WITH ITS OWN consistency algorithm against the model's search with ConsAlg.golomb (the
+    # algorithm is registered above): solution sequence / optimum and the 13 statistics must be equal
+    gruns = []
+    for marks, sbf, op in ((4, True, "opt"), (4, False, "solve"), (5, True, "opt"), (5, True, "solve5")) + (((6, True, "opt"), (5, False, "opt")) if thorough else ()):
+        gp = GolombProblem(marks, sbf)
+        gprob = from_problem(gp)
+        gcfg = nv.Cfg(cons=2)
+        if op == "opt":
+            r = nv.impl_optimize(gprob, gcfg, gp.length_idx, True)
+            line = f"opt {gprob.enc()} {gcfg.enc(gprob)} {gp.length_idx} min"
+            impl = f"{'none' if r[1] is None else nv.enc_ints(r[1])} {nv.enc_ints(r[2])}" if r[0] == "ok" else f"{r[0]} {r[1]}"
+        else:
+            lim = 40 if op == "solve5" else 1000000
+            r = nv.impl_solve(gprob, gcfg, lim)
+            line = f"solve {gprob.enc()} {gcfg.enc(gprob)} {lim}"
+            impl = f"{';'.join(nv.enc_ints(s_) for s_ in r[1]) if r[1] else '-'} {nv.enc_ints(r[2])}" if r[0] == "ok" else f"{r[0]} {r[1]}"
+        gruns.append((line, impl, {"op": "golomb-own-run", "marks": marks, "symmetry_breaking": sbf, "kind": op}))
+        report.cov["evaluations"] += 1
+        report.count("golomb_own_whole_runs", f"{marks}:{op}")
+    for (line, impl, rp), ans_ in zip(gruns, nv.Model().ask([l_ for l_, _, _ in gruns])):
+        if impl != ans_:
+            corr.append(dict(rp, implementation=impl[:300], model=ans_[:300]))
     # the Golomb model's own consistency algorithm against its Lean model golombPrune (C20_golomb_prune_sound is about that model)
     import golomb_corr
     gc, gv = golomb_corr.run(report, rng, 120 * nv.boost("examples") if not thorough else 3000)
